@@ -281,14 +281,13 @@ let handle_io (toks : string list) : string =
     let (msgs, rest) = take k rest in
     let (tape, rest) = (match rest with tp :: r -> (tp, r) | [] -> failwith "SBS") in
     let (rs, ws) = split_at "/" rest in
-    let p = ref { pt_in = { r_content = bytes_of_hex tape; r_sched = List.map rd_ev_of_str rs };
-                  pt_out = { w_out = []; w_sched = List.map wr_ev_of_str ws } } in
-    let outs = List.map (fun m ->
-        match serial_process (msg_of_str m) !p with
-        | None -> "FUEL"
-        | Some ((res, p'), _) -> p := p';
-          (match res with Ok r -> "OK " ^ str_omsg r | Err _ -> "ER")) msgs in
-    Printf.sprintf "%s | %s | %s" (String.concat " ; " outs) (hex_of_bytes !p.pt_out.w_out) (hex_of_bytes !p.pt_in.r_content)
+    let p = { pt_in = { r_content = bytes_of_hex tape; r_sched = List.map rd_ev_of_str rs };
+              pt_out = { w_out = []; w_sched = List.map wr_ev_of_str ws } } in
+    (match serial_run (List.map msg_of_str msgs) p with
+     | None -> "FUEL"
+     | Some (results, p') ->
+       let outs = List.map (fun res -> match res with Ok r -> "OK " ^ str_omsg r | Err _ -> "ER") results in
+       Printf.sprintf "%s | %s | %s" (String.concat " ; " outs) (hex_of_bytes p'.pt_out.w_out) (hex_of_bytes p'.pt_in.r_content))
   | "ODS" :: input :: rest ->
     (* ODS input reply... / wsched... : the bridge in front of a scripted bus (one scripted answer per forwarded message) *)
     let (replies, ws) = split_at "/" rest in
